@@ -124,7 +124,9 @@ def check_lookup(ctx, prog, R, fn):
         os_ = chase(prog, bytes_at, origins(prog, bytes_at, t["args"][1], at=b))
         ctx.check(bool(os_) and all(is_role_origin(prog, R, bytes_at, o, "R_KEY_LEN") for o in os_), "stored-key-read", "length-is-stored-length",
                   "the number of key bytes compared is not the stored key length (%s): a prefix or over-long compare" % os_, where=where(bytes_at, b))
-    seeks = [(b, t) for b, t in bytes_at.calls() if (t.get("callee") or "").endswith("::seek_skip_to_piece_key") or (t.get("callee") or "").endswith("::seek_from_start")]
+    from .cursor import skip_to_fns
+    _pos = {f.id for f in skip_to_fns(prog)} | {R.need("SEEK_START").id}
+    seeks = [(b, t) for b, t in bytes_at.calls() if any(x.id in _pos for x in prog.targets(t, bytes_at)[0])]
     ok = bool(seeks) and all(all(o.kind == "param" and o.data == 2 for o in origins(prog, bytes_at, t["args"][1], at=b)) for b, t in seeks)
     ctx.check(ok and all(bytes_at.dominates(seeks[0][0], b) for b, _ in reads), "stored-key-read", "at-given-offset",
               "the stored key is not read at the offset that was passed in", where=where(bytes_at))
@@ -272,6 +274,6 @@ def check(ctx):
     from .engine import import_rules
     # storage-layer integrity rules that the map semantics depend on (corruption of a record, chain or free list changes what get returns)
     import_rules(ctx, "c05", {"insert-links", "overwrite-links", "delete-links", "bucket-index", "field-position", "count-step", "count-arm", "count-writers", "stored-length-read", "payload-is-callers-bytes"})
-    import_rules(ctx, "c06", {"free-slot-field-position", "no-lost-link-update", "large-pop-conservation", "large-pop", "push-pop-inverse", "alloc", "writer-arms"})
+    import_rules(ctx, "c06", {"free-slot-field-position", "no-lost-link-update", "large-pop-conservation", "large-pop", "push-pop-inverse", "alloc", "writer-arms", "tables", "class-slot", "delete-pushes-slot"})
     import_rules(ctx, "c08", {"relink", "abort"})
-    import_rules(ctx, "c09", {"sizer-covers-writer", "slot-honoured"})
+    import_rules(ctx, "c09", {"sizer-covers-writer", "slot-honoured", "vu64-reader-consumes-encoded-length"})
